@@ -21,21 +21,31 @@ variable {W : Type} [Scalar W]
 /-- what a structural mutation does to a genome, without reference to the registry -/
 structure LStep (g g' : Genome W) : Prop where
   bindsOld : ∀ b ∈ gb g, b ∈ gb g'
-  nodesOld : ∀ n ∈ g.nodes, n ∈ g'.nodes
-  nodesNew : ∀ m ∈ g'.nodes, m ∈ g.nodes ∨ m.kind = Kind.hidden
+  nodesOld : ∀ n ∈ g.nodes, ∃ m ∈ g'.nodes, m.id = n.id ∧ m.kind = n.kind
+  nodesNew : ∀ m ∈ g'.nodes, (∃ n ∈ g.nodes, n.id = m.id ∧ n.kind = m.kind) ∨ m.kind = Kind.hidden
   tids : traitIds g' = traitIds g
   head : g'.genes.head?.map (·.inn) = g.genes.head?.map (·.inn)
   mods : g'.modules = g.modules
 
-theorem LStep.refl (g : Genome W) : LStep g g := ⟨fun _ h => h, fun _ h => h, fun _ h => .inl h, rfl, rfl, rfl⟩
+theorem LStep.refl (g : Genome W) : LStep g g :=
+  ⟨fun _ h => h, fun n h => ⟨n, h, rfl, rfl⟩, fun m h => .inl ⟨m, h, rfl, rfl⟩, rfl, rfl, rfl⟩
 
 theorem LStep.trans {a b c : Genome W} (h1 : LStep a b) (h2 : LStep b c) : LStep a c :=
-  ⟨fun b hb => h2.bindsOld b (h1.bindsOld b hb), fun n hn => h2.nodesOld n (h1.nodesOld n hn),
-   fun m hm => (h2.nodesNew m hm).elim (fun h => h1.nodesNew m h) .inr,
+  ⟨fun b hb => h2.bindsOld b (h1.bindsOld b hb),
+   fun n hn => by
+     obtain ⟨m, hm, e1, e2⟩ := h1.nodesOld n hn
+     obtain ⟨k, hk, e3, e4⟩ := h2.nodesOld m hm
+     exact ⟨k, hk, e3.trans e1, e4.trans e2⟩,
+   fun m hm => by
+     rcases h2.nodesNew m hm with ⟨k, hk, e1, e2⟩ | h
+     · rcases h1.nodesNew k hk with ⟨n, hn, e3, e4⟩ | h'
+       · exact .inl ⟨n, hn, e3.trans e1, e4.trans e2⟩
+       · exact .inr (e2 ▸ h')
+     · exact .inr h,
    h2.tids.trans h1.tids, h2.head.trans h1.head, h2.mods.trans h1.mods⟩
 
 theorem LStep.retains {g g' : Genome W} (h : LStep g g') : Retains g g' :=
-  Retains.of_nodes_sub _ _ h.nodesOld
+  fun n hn _ => h.nodesOld n hn
 
 /-- the first gene's number is at most the base counter of the epoch -/
 def HeadLe (bi : Int) (g : Genome W) : Prop := ∀ h ∈ g.genes.take 1, h.inn ≤ bi
@@ -94,7 +104,7 @@ def MutPost (g : Genome W) (L : Local W) (L' : Local W) (r : MRes W) : Prop :=
 theorem lstep_addGene (g : Genome W) (x : Gene W) (hw : WFT g)
     (hw' : WFT ({ g with genes := geneInsert g.genes x } : Genome W)) (hlt : ∀ h0 ∈ g.genes.take 1, h0.inn < x.inn) :
     LStep g ({ g with genes := geneInsert g.genes x } : Genome W) := by
-  refine ⟨fun b hb => ?_, fun _ h => h, fun _ h => Or.inl h, rfl, ?_, rfl⟩
+  refine ⟨fun b hb => ?_, fun n h => ⟨n, h, rfl, rfl⟩, fun m h => Or.inl ⟨m, h, rfl, rfl⟩, rfl, ?_, rfl⟩
   · obtain ⟨y, hy, rfl⟩ := List.mem_map.mp hb
     exact List.mem_map.mpr ⟨y, (C03.mem_insertAt _ _ _ _).mpr (Or.inr hy), rfl⟩
   apply head_preserved g _ hw hw'.wf.genesSorted
@@ -220,7 +230,8 @@ theorem mutateAddLinkP_valid {bi : Int} (g : Genome W) (o : MutOpts W) (rs : Lis
 theorem LStep.rolesOld {g g' : Genome W} (h : LStep g g') : ∀ p ∈ gr g, p ∈ gr g' := by
   intro p hp
   obtain ⟨n, hn, rfl⟩ := List.mem_map.mp hp
-  exact List.mem_map.mpr ⟨n, h.nodesOld n hn, rfl⟩
+  obtain ⟨m, hm, e1, e2⟩ := h.nodesOld n hn
+  exact List.mem_map.mpr ⟨m, hm, by simp only [nodeRole, e1, e2]⟩
 
 theorem MutPost.trans {g g1 : Genome W} {L L1 L2 : Local W} {r : MRes W} (hs : LStep g g1) (hv : ViewExt L L1 g1)
     (h : MutPost g1 L1 L2 r) : MutPost g L L2 r := by
@@ -358,7 +369,8 @@ theorem lstep_disable (g : Genome W) (k : Nat) (hw : WFT g) :
     gb ({ g with genes := setEnabledAt g.genes k false } : Genome W) = gb g := by
   obtain ⟨hskel, hrefs1, _⟩ := setEnabledAt_step g k false hw.wf.traitRefs
   have hgb := C03.gb_setEnabledAt g k false
-  refine ⟨⟨fun b hb => by rw [hgb]; exact hb, fun _ h => h, fun _ h => .inl h, rfl, ?_, rfl⟩, hskel.wft hrefs1 hw, hgb⟩
+  refine ⟨⟨fun b hb => by rw [hgb]; exact hb, fun n h => ⟨n, h, rfl, rfl⟩, fun m h => .inl ⟨m, h, rfl, rfl⟩, rfl, ?_, rfl⟩,
+          hskel.wft hrefs1 hw, hgb⟩
   have := congrArg List.head? hskel.inns
   simpa [List.head?_map] using this
 
@@ -374,12 +386,12 @@ theorem lstep_addSplit (g : Genome W) (x1 x2 : Gene W) (n : Node) (hw : WFT g)
     LStep g ({ g with genes := geneInsert (geneInsert g.genes x1) x2, nodes := nodeInsert g.nodes n } : Genome W) := by
   have hmem : ∀ y, y ∈ geneInsert (geneInsert g.genes x1) x2 ↔ y = x2 ∨ y = x1 ∨ y ∈ g.genes := by
     intro y; rw [C03.mem_geneInsert, C03.mem_geneInsert]
-  refine ⟨fun b hb => ?_, fun m hm => (C03.mem_nodeInsert _ _ _).mpr (.inr hm), fun m hm => ?_, rfl, ?_, rfl⟩
+  refine ⟨fun b hb => ?_, fun m hm => ⟨m, (C03.mem_nodeInsert _ _ _).mpr (.inr hm), rfl, rfl⟩, fun m hm => ?_, rfl, ?_, rfl⟩
   · obtain ⟨y, hy, rfl⟩ := List.mem_map.mp hb
     exact List.mem_map.mpr ⟨y, (hmem y).mpr (.inr (.inr hy)), rfl⟩
   · rcases (C03.mem_nodeInsert _ _ _).mp hm with rfl | h
     · exact .inr hk
-    · exact .inl h
+    · exact .inl ⟨m, h, rfl, rfl⟩
   · apply head_preserved g _ hw hw'.wf.genesSorted
     · intro y hy
       exact ⟨y, (hmem y).mpr (.inr (.inr hy)), rfl⟩
